@@ -15,6 +15,9 @@ Record level := {
 Record pquery := {
   pq_crosstab : bool;                         (* the outer query has a CROSSTAB *)
   pq_subbad : bool;                           (* the FROM-subquery has ORDER BY, CROSSTAB, LIMIT or OFFSET *)
+  pq_nested_subq : bool;                      (* some FROM-subquery level filters by an IN-subquery of its own (each partition
+                                                 would evaluate it on its own data; only the outermost WHERE's subqueries are
+                                                 evaluated cluster-wide by the leader) *)
   pq_levels : list level;                     (* outermost first, non-empty *)
   pq_table_gb : option (list nat);            (* None: the table groups by all dimensions; Some ps: the one-to-one
                                                  parameters of its group-by expressions *)
@@ -45,7 +48,8 @@ Fixpoint pd_walk (pall:bool) (pparams:list nat) (ls:list level) (tgb:option (lis
   end.
 
 Definition pushdown_allowed (q:pquery) : bool :=
-  negb (pq_crosstab q) && negb (pq_subbad q) && pd_walk true [] (pq_levels q) (pq_table_gb q) (pq_pk q).
+  negb (pq_crosstab q) && negb (pq_subbad q) && negb (pq_nested_subq q) &&
+  pd_walk true [] (pq_levels q) (pq_table_gb q) (pq_pk q).
 
 (* ---- meaning: keys are functions from names to values; a level maps its input key to its output key ---- *)
 Section Sem.
